@@ -39,7 +39,12 @@ REAL_INPUTS = [('file', '3SGB'), ('file', '1HPX'), ('file', '4DFR'), ('file', '1
                # covalently coupled groups (N-terminal Asp / Cys, phosphate) under the parameter toggles that act on them
                ('cfgwin', ['3SGB', 'I', 0, 8], 'common_charge_centre 1'), ('cfgwin', ['1HPX', 'A', 66, 8], 'common_charge_centre 1'),
                ('cfgwin', ['3SGB', 'I', 0, 8], 'common_charge_centre 1\nshared_determinants 1'), ('cfgwin', ['3SGB', 'I', 0, 8], 'remove_penalised_group 0'),
-               ('cfglig', 'MPO', 'common_charge_centre 1'), ('cfglig', 'MPO', 'remove_penalised_group 0')]
+               ('cfglig', 'MPO', 'common_charge_centre 1'), ('cfglig', 'MPO', 'remove_penalised_group 0'),
+               # parameter files whose output order omits or repeats residue types (what is printed is not what carries charge)
+               ('cfgwin', ['1HPX', 'A', 40, 12], '-write_out_order TYR LYS'), ('cfgwin', ['1HPX', 'A', 40, 12], '+write_out_order ASP GLU'),
+               ('cfgwin', ['3SGB', 'E', 30, 14], '-write_out_order HIS ARG N+ C-'), ('cfglig', 'ACT', '-write_out_order OCO LYS')]
+# option sets for the written file of real inputs (the pI line must agree with the API on any grid)
+TEXT_OPTS = ((), ('-g', '0', '14', '2'), ('-g', '0', '14', '3'), ('-g', '1', '13', '1'), ('-g', '0.5', '13.5', '2.5'))
 
 
 def sigs(tier):
@@ -232,8 +237,17 @@ def run_shard(shard, ctx):
 
 def cfg_file(edits):
     from . import c02
-    want = dict(ln.split(None, 1) for ln in edits.split('\n'))
     path = os.path.abspath('c09_%s.cfg' % jhash(edits))
+    if edits[0] in '+-':      # list keyword: '-key A B' drops the lines 'key A', 'key B'; '+key A B' repeats them at the end
+        w = edits[1:].split()
+        lines = [ln for ln in c02.cfg_variants()[(1, 0, 0)].splitlines(True)
+                 if not (edits[0] == '-' and ln.split()[:1] == [w[0]] and ln.split()[1:2] and ln.split()[1] in w[1:])]
+        if edits[0] == '+':
+            lines += ['%s %s\n' % (w[0], x) for x in w[1:]]
+        with open(path, 'w') as fh:
+            fh.write(''.join(lines))
+        return path
+    want = dict(ln.split(None, 1) for ln in edits.split('\n'))
     if not os.path.exists(path):
         lines = []
         for ln in c02.cfg_variants()[(1, 0, 0)].splitlines(True):
@@ -331,6 +345,14 @@ def run_case(case, ctx, acc):
     else:
         mol, text = real_mol(case['inp'], ctx.seed)
         oracle(mol, case, acc, text=pk.pka_text(mol), lattice=False)
+        if case['inp'][0] in ('pair', 'file', 'cfgwin'):
+            for o in TEXT_OPTS[1:]:
+                m2, _ = real_mol(case['inp'], ctx.seed, o)
+                p2 = pk.parse_pka(pk.pka_text(m2))
+                pif, piu = m2.get_pi()
+                acc.n += 1
+                if p2['pi'] is not None and pif is not None and piu is not None and (abs(p2['pi'][0] - pif) > 0.00501 or abs(p2['pi'][1] - piu) > 0.00501):
+                    acc.viols.append(Viol(dict(case, opts=list(o)), 'hh', 'pi-line-differs/coarse-grid', 'options %s: printed %s, API (%r, %r)' % (' '.join(o), p2['pi'], pif, piu)))
         for cname in mol.conformation_names:     # every single conformation, with the file written for it
             oracle(mol, dict(case, conformation=cname), acc, text=conf_text(mol, cname), lattice=False, cname=cname)
             acc.n += 1
